@@ -21,8 +21,9 @@ def fkey(x):
 class Recorder:
     """Wraps module attributes of the working tree's synrbl; all recorded values are deep copies."""
 
-    def __init__(self, force_conf=None):
+    def __init__(self, force_conf=None, force_carbon=None):
         self.force_conf = force_conf      # explore the scoring oracle's answer space: every score is this value
+        self.force_carbon = force_carbon or {}   # explore the carbon counter's answer space: {molecule SMILES: delta}
         self.t = {k: {} for k in ("strip", "parse", "decomp", "ccount", "mcs_state", "impute", "pp", "conf", "impute_fine")}
         self.cur = None
         self.trace = []
@@ -65,7 +66,10 @@ class Recorder:
         o_cnt = CheckCarbonBalance.count_atoms
 
         def cnt(s, t, cache):
-            r = o_cnt(s, t, cache); R.put("ccount", s, r); return r
+            r = o_cnt(s, t, cache)
+            if s in R.force_carbon:
+                r = r + R.force_carbon[s]      # the cache keeps the real count, so the shift is applied exactly once per call
+            R.put("ccount", s, r); return r
         self.patch(CheckCarbonBalance, "count_atoms", staticmethod(cnt))
         o_parse = RSMIProcessing.can_parse
 
@@ -209,9 +213,9 @@ def balancer(t=0):
     return _BAL[t]
 
 
-def run_batch(inputs, t=0, force_conf=None):
+def run_batch(inputs, t=0, force_conf=None, force_carbon=None):
     """One pipeline batch on the real code with recorders.  Returns a JSON-able dict."""
-    rec = Recorder(force_conf).install()
+    rec = Recorder(force_conf, force_carbon).install()
     st = {}
     try:
         rows = balancer(t).rebalance(list(inputs), output_dict=True, stats=st)
@@ -230,19 +234,19 @@ def run_batch(inputs, t=0, force_conf=None):
                     "confidence": None if c is None or (isinstance(c, float) and math.isnan(c)) else float(c)})
     tables = {k: [[kk, vv] for kk, vv in v.items()] for k, v in rec.t.items()}
     return {"inputs": list(inputs), "t": t, "rows": out, "stats": st, "tables": tables, "trace": [list(x) for x in rec.trace],
-            "conflicts": len(rec.conflicts), "error": err, "force_conf": force_conf}
+            "conflicts": len(rec.conflicts), "error": err, "force_conf": force_conf, "force_carbon": force_carbon}
 
 
-def run_batches(batches, t=0, procs=None, force_conf=None):
+def run_batches(batches, t=0, procs=None, force_conf=None, force_carbon=None):
     """Many batches, in parallel worker processes (each in-process joblib, n_jobs=1)."""
     procs = procs or min(NPROC - 2, 14)
     if len(batches) <= 2 or procs <= 1:
-        return [run_batch(b, t, force_conf) for b in batches]
+        return [run_batch(b, t, force_conf, force_carbon) for b in batches]
     import multiprocessing as mp
     ctx = mp.get_context("spawn")          # fork after xgboost/OpenMP is loaded deadlocks
     procs = min(procs, len(batches))
     with ctx.Pool(procs, initializer=_worker_init) as pool:
-        return pool.starmap(run_batch, [(b, t, force_conf) for b in batches], chunksize=1)
+        return pool.starmap(run_batch, [(b, t, force_conf, force_carbon) for b in batches], chunksize=1)
 
 
 def _worker_init():
